@@ -168,7 +168,7 @@ PROPS = {
         "assumptions": ["that goleveldb applies a synced batch atomically and recovers it from a torn journal is observed on the sampled crash images, not proved", "that the timer fires within BatchDelaySeconds and kernel fsync semantics are outside the model", "Sync:true on every LevelDB write is a regenerated fact"],
     },
     "C14": {
-        "theorems": ["SV.Props.C14.counters_are_paired_with_map_updates", "SV.Props.C14.addTx_is_one_critical_section", "SV.Props.C14.eviction_removals_are_one_critical_section", "SV.Props.C14.concurrent_adds_all_present_and_ordered", "SV.Props.C14.concurrent_adds_commute", "SV.Props.C14.selection_after_concurrent_adds", "SV.Props.C14.no_lock_cycle", "SV.Props.C14.components_are_single_critical_sections", "SV.Props.C14.concurrent_selection_nonce_runs", "SV.Props.C14.concurrent_selection_budgets", "SV.Props.C14.concurrent_adds_sorted"],
+        "theorems": ["SV.Props.C14.counters_are_paired_with_map_updates", "SV.Props.C14.addTx_is_one_critical_section", "SV.Props.C14.eviction_removals_are_one_critical_section", "SV.Props.C14.no_orphan_under_any_interleaving_of_sections", "SV.Props.C14.quiescent_pool_has_no_unreachable_transaction", "SV.Props.C14.indexes_well_formed_under_any_interleaving", "SV.Props.C14.sequential_add_is_the_two_sections", "SV.Props.C14.two_sided_agreement_is_not_invariant", "SV.Props.C14.concurrent_adds_all_present_and_ordered", "SV.Props.C14.concurrent_adds_commute", "SV.Props.C14.selection_after_concurrent_adds", "SV.Props.C14.no_lock_cycle", "SV.Props.C14.components_are_single_critical_sections", "SV.Props.C14.concurrent_selection_nonce_runs", "SV.Props.C14.concurrent_selection_budgets", "SV.Props.C14.concurrent_adds_sorted"],
         "modules": ["SV.Props.C14"],
         "runs": [{"component": "conc14", "thorough_seeds": 2, "race": True}],
         "rule": "concurrent workloads (4-8 goroutines, GOMAXPROCS 1/2/4/16) on TxCache (add/remove/select/iterate with eviction; adds only), ImmunityCache, LRU, sized LRU, FIFO cache, TimeCache and ConcurrentMap from a binary built with -race; yields injected at the txcache verifPoint hooks and inside host/session callbacks; oracles: no race / panic / deadlock (watchdog), C01/C02 on every concurrent selection, all concurrently added transactions present and ordered, immunized items survive, size bounds, quiescent CountTx/NumBytes; distinct = distinct (operation kind, output) pairs",
